@@ -394,6 +394,11 @@ HOPS = [
     ('write', b'A%', (1, 2), 9),
     ('write', b'B%', (1,), 3),
     ('dim', b'A%', (0,)),
+    # everything is forgotten, also the array base: an array of a shape seen before is laid out afresh
+    ('clear',),
+    # ... also when the array comes back at once (the state right after a bare CLEAR equals the initial one and is merged with it)
+    ('clearwrite', b'A%', (1, 2), 9),
+    ('clearwrite', b'A%', (2,), 5),
 ]
 
 
@@ -409,6 +414,10 @@ def render_hop(op):
         return b'ERASE %s' % op[1]
     if k == 'base':
         return b'OPTION BASE %d' % op[1]
+    if k == 'clear':
+        return b'CLEAR'
+    if k == 'clearwrite':
+        return b'CLEAR:%s=%d' % (elem(op[1], op[2]), op[3])
     raise CheckError(repr(op))
 
 
@@ -462,6 +471,11 @@ class HRef(object):
             return {None}
         if k == 'erase':
             return {None} if op[1] in self.arrays else {E_IFC}
+        if k == 'clear':
+            return {None}
+        if k == 'clearwrite':
+            c = HRef()
+            return {c._access(op[1], op[2])}
         if k in ('read', 'write'):
             # auto-dimension happens even when the access then fails: predict on a copy
             c = self.copy()
@@ -478,6 +492,13 @@ class HRef(object):
         if k == 'dim':
             if outcome is None:
                 self._create(op[1], op[2])
+            return
+        if k in ('clear', 'clearwrite'):
+            self.arrays = {}
+            self.base = 'U'
+            self.x = None
+            if k == 'clearwrite' and self._access(op[1], op[2]) is None:
+                self.arrays[op[1]][1][op[2]] = op[3]
             return
         if k == 'erase':
             if outcome is None:
@@ -526,7 +547,7 @@ def hist_step(s, ref, op, viols):
                       '%r raised %r' % (render_hop(op), r.exc)))
         return False, 'host-exception'
     if r.err not in exp:
-        what = {'dim': 'dim', 'erase': 'erase', 'base': 'option-base', 'read': 'access',
+        what = {'dim': 'dim', 'erase': 'erase', 'clear': 'clear', 'clearwrite': 'access', 'base': 'option-base', 'read': 'access',
                 'write': 'access'}[op[0]]
         detail = 'accepted' if r.err is None else 'error-%s' % r.err
         viols.append(('history/%s/%s-expected-%s' % (what, detail, '-or-'.join(
